@@ -120,7 +120,7 @@ def exc_info(ex):
             'cause_str': (str(cause)[:200] if cause is not None else None)}
 
 
-def run_dag(scn, *, hooks_factory=None, keep=False, extra_hooks=None):
+def run_dag(scn, *, hooks_factory=None, keep=False, extra_hooks=None, before_run=None, after_run=None):
     """scn keys: spec, backend, max_workers, sched_seed, fresh_prob, build_seed,
     pre (names pre-run to warm the cache), pre_backend, bust, failing {name: act},
     cof, gated, ctx, storage, free_sleep, displays, requested (override)."""
@@ -188,8 +188,10 @@ def run_dag(scn, *, hooks_factory=None, keep=False, extra_hooks=None):
             hooks = GateController(ctl=ctl, rng=random.Random(scn.get('sched_seed', 0)), W=W,
                                    ledger=ledger, acts=failing,
                                    release_bias=scn.get('release_bias', 0.35))
+            if hooks_factory is not None:
+                hooks = hooks_factory(out, hooks) or hooks
         elif hooks_factory is not None:
-            hooks = hooks_factory(out)
+            hooks = hooks_factory(out, None)
         if extra_hooks is not None and hooks is None:
             hooks = extra_hooks
         out.hooks = hooks
@@ -213,6 +215,9 @@ def run_dag(scn, *, hooks_factory=None, keep=False, extra_hooks=None):
         spy_backend.hooks.on_build = on_build
         out.result = None
         out.exc = None
+        out.ledger_obj = ledger
+        if before_run is not None:
+            before_run(out)
         out.t_call = time.monotonic_ns()
         try:
             res = lab.run_tasks(req, bust_cache=scn.get('bust', False),
@@ -225,6 +230,8 @@ def run_dag(scn, *, hooks_factory=None, keep=False, extra_hooks=None):
         else:
             out.result = res
         out.t_return = time.monotonic_ns()
+        if after_run is not None:
+            after_run(out)
         if hooks is not None and isinstance(hooks, GateController):
             hooks.release_all(list(spec['tasks']))
             out.rests = hooks.rests
